@@ -750,10 +750,10 @@ def run(ctx):
     ctx.assume("numpy `+=` / `-=` on an array bound to a local updates the array in place")
     ctx.assume("a node's log_r is a function of its own log_p and its children's log_r only (TreeNode.update_node_from_child_r_vals; C02)")
     fx = TreeFx(ctx.prog)
-    rule_M1(ctx, fx)
+    ctx.soft(rule_M1, fx)
     summary = payload_summary(ctx)
-    rule_M2(ctx, fx, summary)
-    rule_M4(ctx, fx)
+    ctx.soft(rule_M2, fx, summary)
+    ctx.soft(rule_M4, fx)
     # relabelling is one of the edits of the statement: a clone's data list must stay with the node whose
     # cached vectors were accumulated from it (same rule object as C07.V2)
     from . import C07
@@ -761,7 +761,7 @@ def run(ctx):
     from ..formula import imported
     from ._treespec import rule_TS
 
-    rule_TS(ctx, owners=["tree.Tree", "tree_node.TreeNode", "visitors.PostOrderNodeUpdater", "visitors.PreOrderNodeRelabeller"])
+    ctx.soft(rule_TS, owners=["tree.Tree", "tree_node.TreeNode", "visitors.PostOrderNodeUpdater", "visitors.PreOrderNodeRelabeller"])
     ctx._own_rules = set(ctx.rule_min)
     imported(ctx, C07.rule_V2)
     # the incrementally maintained vectors come out of the memoised recursion: a cache that returns another
